@@ -57,21 +57,30 @@ C("_SetIteration.advance", cls="_SetIteration", params={}, returns="ref:_SetIter
       "steps": "(self.active and self.position == old(self.position) + 1) if old(self.position) < len(it_seq(self._iter)) "
                "else (not self.active)",
       "consumed_one_more": "set_eq(" + seen("self") + ", sadd(old(" + seen("self") + "), old(self.key)))",
+      "default_value_kept": "implies(not self.useValues, self.value == old(self.value))",
   },
   modifies=ADV_MOD, props=["C10", "C12"], ghost={"no_compare": True, "pe_full": True})
 
-# ASSUMED (trusted) contract of the constructor, see the module docstring
+# ASSUMED (trusted) contract of the constructor, see the module docstring.
+# The operand is either an abstract iterable (`any`: iterates as the ghost
+# sequences keyseq/valseq) or a leaf object of this module (Bucket: its own
+# _keys/_values lists, with values; Set: its _keys, no values).
+OP_KEYS = "(to_iterate._keys if kind_of(to_iterate) == 'ref' else keyseq(to_iterate))"
+OP_VALS_LINK = ("(implies(is_cls(to_iterate, 'Bucket'), it_vals(self._iter) is to_iterate._values) "
+                "if kind_of(to_iterate) == 'ref' else it_vals(self._iter) is valseq(to_iterate))")
+OP_HASV = "(is_cls(to_iterate, 'Bucket') if kind_of(to_iterate) == 'ref' else has_values(to_iterate))"
 C("_SetIteration.__init__", cls="_SetIteration",
-  params={"to_iterate": "any", "useValues": "bool", "default": ["int", "none", "V"], "sort": "bool"},
+  params={"to_iterate": ["any", "ref:Bucket", "ref:Set"], "useValues": "bool", "default": ["int", "none", "V"], "sort": "bool"},
   returns="none", trusted=True,
-  requires={"ascending_duplicate_free": "sorted_strict(keyseq(to_iterate))"},
+  requires={"ascending_duplicate_free": "sorted_strict(" + OP_KEYS + ")"},
   ensures={
       "cursor": cur("self"),
       "fresh_iterator": "fresh(self._iter)",
-      "over_operand": "it_seq(self._iter) is keyseq(to_iterate) and it_vals(self._iter) is valseq(to_iterate)",
-      "values_used": "self.useValues == (useValues and has_values(to_iterate))",
-      "positioned": "self.active == (len(keyseq(to_iterate)) > 0)",
+      "over_operand": "it_seq(self._iter) is " + OP_KEYS + " and " + OP_VALS_LINK,
+      "values_used": "self.useValues == (useValues and " + OP_HASV + ")",
+      "positioned": "self.active == (len(" + OP_KEYS + ") > 0)",
       "nothing_consumed": "implies(self.active, set_eq(" + seen("self") + ", sempty()))",
+      "default_value": "implies(not self.useValues and default is not None, self.value == default)",
   },
   modifies=["self.key", "self.value", "self.position", "self.active", "self.useValues", "self._iter"],
   ghost={"allocates": True, "no_compare": True})
